@@ -32,6 +32,10 @@ type Op struct {
 	// of [removal marker, set]; the meaning is the same (a set wins over a removal of the
 	// same key within one response whatever the order).
 	Rev bool `json:"rev,omitempty"`
+	// ValOf makes the plugin write somebody else's value instead of its own: "rt" = exactly
+	// the runtime's original value of that item, "p<k>" = the value pool plugin k would
+	// write. The plugin still *sets* the item (claims it); only the value coincides.
+	ValOf string `json:"val_of,omitempty"`
 }
 
 // Upd is one container update requested by a plugin.
@@ -40,6 +44,7 @@ type Upd struct {
 	Fields []string `json:"fields,omitempty"` // scalar fields, "huge/<size>", "unified/<key>"
 	Ignore bool     `json:"ignore,omitempty"`
 	NoRes  bool     `json:"nores,omitempty"` // update without a resources section
+	ValOf  string   `json:"val_of,omitempty"` // as Op.ValOf, for all fields of this update
 }
 
 type Script struct {
@@ -205,7 +210,22 @@ func genOp(t *rapid.T, used map[string]bool) (Op, bool) {
 		return op, false
 	}
 	used[id] = true
+	if op.Act != "del" && op.Fam != "hook" {
+		op.ValOf = genValOf(t)
+	}
 	return op, true
+}
+
+// genValOf: mostly the plugin's own value; sometimes exactly the runtime's, rarely another
+// plugin's.
+func genValOf(t *rapid.T) string {
+	switch rapid.IntRange(0, 19).Draw(t, "valof") {
+	case 0, 1, 2:
+		return "rt"
+	case 3:
+		return fmt.Sprintf("p%d", rapid.IntRange(0, poolSize-1).Draw(t, "valofp"))
+	}
+	return ""
 }
 
 // genUpd draws one update. A plugin may name a target in several updates of one response,
@@ -232,6 +252,9 @@ func genUpd(t *rapid.T, kind string, b Bias, used map[string]bool) (Upd, bool) {
 		}
 	}
 	u.Ignore = rapid.IntRange(0, 99).Draw(t, "ignore") < b.IgnoreFlags
+	if !u.NoRes {
+		u.ValOf = genValOf(t)
+	}
 	return u, true
 }
 
@@ -488,6 +511,14 @@ func forceCollision(t *rapid.T, c *Case, i, j int) {
 		for n, idx := range []int{i, j} {
 			s := &c.Chain[idx]
 			o := op
+			switch rapid.IntRange(0, 5).Draw(t, "cvalof") {
+			case 0:
+				o.ValOf = "rt" // e.g. the first collider re-asserts the original value
+			case 1:
+				if n == 1 {
+					o.ValOf = fmt.Sprintf("p%d", c.Chain[i].Plugin) // the later one writes the same value as the earlier
+				}
+			}
 			if n == 0 && has(removableFams, op.Fam) && rapid.IntRange(0, 3).Draw(t, "cfirstreset") == 0 {
 				// the first collider may itself remove-then-set (either list order): it still owns the item
 				o.Act = "reset"
@@ -564,6 +595,9 @@ func forceRelease(t *rapid.T, c *Case) {
 		act := gen.Pick(t, "ract", acts)
 		rev := act == "reset" && fam != "ann" && fam != "args" && rapid.Bool().Draw(t, "rrev")
 		op := Op{Fam: fam, Key: key, Act: act, Rev: rev}
+		if act != "del" {
+			op.ValOf = genValOf(t)
+		}
 		if k := hasOp(s, fam, key); k >= 0 {
 			s.Ops[k] = op
 		} else {
